@@ -1,10 +1,10 @@
 """C10: request strings can never change the structure of SQL sent to ClickHouse.
 
-spec/query/Escape.tla transcribes StringVal.String (the ordered replace table), doLike (trim + LIKE escaping), ClickHouse's
+spec/query/Escape.tla transcribes StringVal.String (the ordered replace table), doLike (LIKE escaping, then quoting), ClickHouse's
 string-literal automaton and LIKE pattern decoding over an alphabet of 19 character classes; MC_Escape.tla lets TLC check
 for ALL strings up to length 4 (quick) / 5 (thorough) that the quoted text is exactly one literal decoding to the string
-(EscRoundTrip), that the LIKE literal is exactly one literal (LikeStructure), and (candidate) that it means ANY s ANY
-(LikeValue).  Every string up to length 3 plus a seeded sample of the longer ones is exported and replayed by cmd/c10:
+(EscRoundTrip), that the LIKE literal is exactly one literal (LikeStructure), and (in a run of its own) that it means
+ANY s ANY (LikeValue).  Every string up to length 3 plus a seeded sample of the longer ones is exported and replayed by cmd/c10:
   * conformance: the spec's Esc / LikeText equal the text the real sql.NewStringVal / LineFilterPlanner render, and the
     spec's verdicts equal those of the reference lexer on the real text (so the TLC result transfers to the code);
   * binding: the concretised string is placed into every string position of the real reader routes (LogQL, Loki label
